@@ -4,7 +4,7 @@ import vlib, progsuite, opsuite
 from gen import proggen, opgen, panic_sites
 
 BOUNDARY_LITS = ['2147483647', '2147483648', '0', '1', '1e308', '1.7976931348623157e308', '0.0000001', '""', '"é"', '"😀a"', "''", "'a'", '31', '32', '33', '1000000',
-                 '(0 - 1)', '(0 - 2147483647 - 1)', '1.5', '(0 - 0.5)', '()', '$?', ':a']
+                 '(0 - 1)', '(0 - 2147483647 - 1)', '1.5', '(0 - 0.5)', '()', '$?', ':a', ':café', ':日本_x']
 OPS2 = ['+', '-', '*', '/', '//', '%', '**', '<<', '>>', '&', '|', '^', '.', '<~', '~>', '..', '>..', '..<', '>..<', '<>', '~#', '==', '<', '~']
 
 
@@ -29,7 +29,7 @@ def run(ctx):
                 for op in (OPS2 if ctx.tier == 'thorough' else rnd.sample(OPS2, 8)):
                     add(f'{a} {op} {b}', rnd.choice(progsuite.STORES), host=rnd.choice(progsuite.HOSTS))
         shapes = ['(1 2 3) . %s', '"héllo" . %s', "'abc' . %s", '(1 .. 5) . %s', '(1 2 3) <~ %s', '"héllo" <~ (%s .. 3)', '(1 2 3) <~ (0 .. %s)', '(1 .. %s) ~# (1,)',
-                  '"héllo" ~# (1,)', '%s ~# "a"', '%s ~# 1', '%s ~# :a', "%s ~# 'a'", '(1 <> 2 <> (3 4)) . %s', '((1 2 3) <~ (0 .. 1)) . %s', '1 << %s', '1 >> %s', '2 ** %s', '%s // 0.0000001',
+                  '"héllo" ~# (1,)', '%s ~# "a"', '(%s = 1) ~# ""', '(1, %s) ~# ""', '(%s 2) ~# :a', '%s ~# 1', '%s ~# :a', "%s ~# 'a'", '(1 <> 2 <> (3 4)) . %s', '((1 2 3) <~ (0 .. 1)) . %s', '1 << %s', '1 >> %s', '2 ** %s', '%s // 0.0000001',
                   '_. (%s .. 2)', '(%s .. 2) .|', '(1 = %s) . 0', '{ $ . %s } <~ (1 2)', '(:a :b) . %s']
         for sh in shapes:
             for a in BOUNDARY_LITS:
